@@ -26,6 +26,8 @@ type Frame struct {
 	rets     []retInfo
 	loops    map[*ssa.BasicBlock]*loopInfo
 	clausePkg string // package of the contract clause being evaluated
+	dupQuant  int    // >0: assumed quantified facts are emitted in both index forms
+	noShift   bool
 	ranges   map[ssa.Value]string // Range instr -> seen-set state key
 	paramEnv map[string]Val
 	curBlock *ssa.BasicBlock
@@ -508,7 +510,7 @@ func (f *Frame) loopCut(li *loopInfo, cur *State) {
 	if c != nil {
 		env := f.loopEnv(li, cur, nil)
 		for _, inv := range c.Invs {
-			un.assume(cur, f.evalClause(inv, env, cur, &f.entry))
+			un.assume(cur, f.evalAssume(inv, env, cur, &f.entry))
 		}
 	} else if !f.pure {
 		un.note("loop " + f.loopName(li) + " has no invariant (true)")
